@@ -45,7 +45,11 @@ let oracle_calls = ref 0
 let uncompress (inp : n list) (outsize : n) : uresult =
   incr oracle_calls;
   let (ret, out) = c_uncompress !comp_id (bytes_of_list inp) (int_of_n outsize) in
-  if ret < 0 then UErr (z_of_int ret) else UOk (list_of_string out)
+  if ret < 0 then UErr (z_of_int ret)
+  else begin
+    let ret = min ret (String.length out) in
+    UOk (list_of_string (String.sub out 0 ret), list_of_string (String.sub out ret (String.length out - ret)))
+  end
 
 let fnv_bytes (l : n list) =
   let h = ref 2166136261 in
@@ -81,14 +85,12 @@ let () =
   let sub_list off n = let r = ref [] in for i = off + n - 1 downto off do r := byte_tab.(Char.code raw.[i]) :: !r done; !r in
   let err_io = z_of_int (-2) and err_oob = z_of_int (-8) in
   let img_list = if len <= 40000 then list_of_string raw else [] in
+  let nlen = n_of_int len in
   let fast (off : n) (n : n) : rd_res =
     if n = N0 then RdOk []
     else if not (N.ltb off two63) then RdErr (err_io, [])
-    else begin
-      let o = int_of_n off and k = int_of_n n in
-      if o + k <= len then RdOk (sub_list o k)
-      else RdErr (err_oob, if o < len then sub_list o (len - o) else [])
-    end in
+    else if N.leb (N.add off n) nlen then RdOk (sub_list (int_of_n off) (int_of_n n))      (* compared as N: no int overflow *)
+    else RdErr (err_oob, if N.ltb off nlen then (let o = int_of_n off in sub_list o (len - o)) else []) in
   let fsz = n_of_int len in
   (* on small images every call is re-checked against the extracted MetaModel.read_at *)
   let img (off : n) (n : n) : rd_res =
